@@ -326,9 +326,9 @@ func init() {
 		"destructive network faults (the property is about decisions, not about surviving connection loss)",
 		"Digest qop / cnonce / opaque / stale handling (not offered by the server side)",
 	}
-	f.Rule = "scenario = workload (A 30% | B 25% | C 45%) x ordered non-empty subset of {Basic, Digest-MD5, Digest-SHA-256} x user name (1..12 printable/unicode runes, no ':' '\"' '\\') x password (1..14 printable/unicode runes, 40% with ':') x stream URL (1..4 path segments incl. spaces, unicode, '@', sub-delims, raw percent escapes; 55% with a query; '@' followed by '%' only as stated in the assumptions) x 1..3 medias x play|record flow x latency x chunk mode 0..3; A: 15% with one wrong credential; B: seeded realm (0..16 runes) and nonce (hex, base64-like, printable); C: a conversation DESCRIBE|ANNOUNCE, SETUP*, PLAY|RECORD that always starts without credentials, may repeat the challenge mid-flow, authorises each step with a seeded enabled scheme (header variants: algorithm token/quoted/absent, SETUP base-URL forms, abs_path form) and ends (88%) with one single-field perturbation (9 kinds: user, password, realm, nonce, method, algorithm, uri, response digest, scheme not enabled; x field-only / response-only / both x 4..8 concrete mutations incl. proper-prefix URIs and a nonce issued on another connection) at a seeded step. Non-trivial = at least one credential decision was checked (A: a request accepted after a 401 or a wrong credential refused; B: auth.Verify evaluated on a retried request; C: challenge checked and a valid or perturbed request judged); distinct = distinct canonical event log"
+	f.Rule = "scenario = workload (A 30% | B 25% | C 45%) x ordered non-empty subset of {Basic, Digest-MD5, Digest-SHA-256} x user name (1..12 printable/unicode runes, no ':' '\"'; 12% with a backslash) x password (1..14 printable/unicode runes, 40% with ':') x stream URL (1..4 path segments incl. spaces, unicode, '@', sub-delims, raw percent escapes; 55% with a query; '@' followed by '%' only as stated in the assumptions) x 1..3 medias x play|record flow x latency x chunk mode 0..3; A: 15% with one wrong credential; B: seeded realm (0..16 runes) and nonce (hex, base64-like, printable); in a third of the runs the application reports authentication failures wrapped (fmt.Errorf with %w); C: a conversation DESCRIBE|ANNOUNCE, SETUP*, PLAY|RECORD that always starts without credentials, may repeat the challenge mid-flow, authorises each step with a seeded enabled scheme (header variants: algorithm token/quoted/absent, SETUP base-URL forms, abs_path form) and ends (88%) with one single-field perturbation (9 kinds: user, password, realm, nonce, method, algorithm, uri, response digest, scheme not enabled; x field-only / response-only / both x 4..8 concrete mutations incl. proper-prefix URIs and a nonce issued on another connection) at a seeded step. Non-trivial = at least one credential decision was checked (A: a request accepted after a 401 or a wrong credential refused; B: auth.Verify evaluated on a retried request; C: challenge checked and a valid or perturbed request judged); distinct = distinct canonical event log"
 	f.Assumptions = []string{
-		"user names, realms and nonces never contain '\"' or '\\' (the header grammar of pkg/headers has no quoted-pair escaping; the statement excludes '\"' for user names only)",
+		"realms and nonces never contain '\"' or '\\', user names never '\"' (the header grammar of pkg/headers has no quoted-pair escaping; the statement excludes '\"' for user names only; a backslash in a user name travels as it is)",
 		"acceptance of the two documented SETUP base-URL forms (stream URL with / without trailing slash as digest uri) and of the RFC 2617 abs_path form is not asserted: they are sent as otherwise valid requests and either outcome is accepted (probes setup_base_url_form_*, uri_abs_path_form_*); they are never counted as URI perturbations",
 		"'rejected' is asserted as status 401 followed by the server closing the connection (EOF at the client within the settle time plus 2 s of simulated time, and OnConnClose delivered)",
 		"'keeps the connection' is asserted as: the next request on the same connection gets a response and no OnConnClose was delivered in between",
